@@ -24,7 +24,7 @@ def run(tier):
         viewextra.add_paths(cr, D, False, "O19")
         viewextra.add_empty_results(cr, D, False, "O19")
     for D in range(1, (3 if tier == "thorough" else 2) + 1):
-        c02.add_flat(cr, D, False, fam="O19.flat", one_key="O19.flat:elements()-of-a-view-with-non-zero-index-bases-is-shifted-by-the-offsets")
+        c02.add_flat(cr, D, False, fam="O19.flat")      # the whole flat-range family with free index bases (a known finding until fix 03e603d)
     cr.compile(nshards=8, extra_prelude=c02.EXTRA)
     cr.check()
     rep.need_instances("O19 obligations generated", len(rep.obligations), 1450 if tier == "quick" else 2450)
